@@ -9,7 +9,7 @@ OPN = {0: "clock", 1: "deposit", 2: "withdraw", 3: "borrow", 4: "repay", 7: "clo
        16: "collect_fees", 17: "liquidate", 18: "bankruptcy", 19: "set_price",
        30: "fixture_risk_admin", 31: "fixture_bank_flags",
        32: "collect_fees_foreign_ata", 33: "fixture_account_flags", 34: "borrow_without_risk_accounts", 35: "withdraw_without_risk_accounts",
-       36: "close_bank_probe"}
+       36: "close_bank_probe", 37: "liquidate_without_risk_accounts"}
 HB_EXTRA = 13  # tokens after the 38 bankops tokens, before e-mode entries
 
 
@@ -58,7 +58,7 @@ def gen_hbank(rng, now, kind="mixed"):
     return toks + extra, {"dec": toks[11], "price": price, "awi": awi, "lwi": lwi, "tag": toks[10], "tier": tier}
 
 
-AMT_POS = {1: 3, 2: 3, 3: 3, 4: 3, 17: 5, 34: 3, 35: 3}
+AMT_POS = {1: 3, 2: 3, 3: 3, 4: 3, 17: 5, 34: 3, 35: 3, 37: 5}
 
 
 def clamp_op(o):
@@ -339,6 +339,8 @@ def gen_case_scenario(rng, max_ops=26):
                 ops.append([19, d, info[d]["price"]])
         elif r < 0.55:
             amt = rng.choice([1, max(1, camt // 1000), max(1, camt // 100), max(1, camt // 100), max(1, camt // 10), max(1, camt // 3), max(1, camt // 2), camt, camt + 1])
+            if rng.random() < 0.08:
+                ops.append([37, 0, a, c, d, amt])        # the same liquidation without anybody's risk accounts
             ops.append([17, 0 if rng.random() < 0.97 else a, a, c, d, amt])
         elif r < 0.63:
             if rng.random() < 0.6:
@@ -472,7 +474,7 @@ def gen_tokenless_case(rng):
     return " ".join(map(str, toks))
 
 # ---------------------------------------------------------------------------------------------
-OPLEN = {0: 2, 1: 5, 2: 5, 3: 4, 4: 5, 7: 3, 10: 2, 16: 2, 17: 6, 18: 3, 19: 3, 30: 2, 31: 3, 32: 3, 33: 3, 34: 4, 35: 5, 36: 2}
+OPLEN = {0: 2, 1: 5, 2: 5, 3: 4, 4: 5, 7: 3, 10: 2, 16: 2, 17: 6, 18: 3, 19: 3, 30: 2, 31: 3, 32: 3, 33: 3, 34: 4, 35: 5, 36: 2, 37: 6}
 
 
 def parse_case(line):
